@@ -4,14 +4,19 @@ import collections
 MANIFEST = dict(
     module="Pics", ref="§5 C10",
     text="The reference machine Pics.tla (media parts name -> image token, relationships of the main part, pictures in "
-         "document order in the body and in table cells, open picture placeholders, image counter; the sizing rules "
-         "transcribed into integer EMU arithmetic) is model-checked exhaustively: relationship ids unique, media names "
-         "functional, every picture resolves, no call disturbs an earlier picture, a call creates exactly the pictures it is "
-         "asked for with the bytes and extent given, rendering replaces placeholders in place. TLC-generated operation "
+         "document order in the body and in table cells, open picture placeholders, image counter, the caller's image files "
+         "path -> content as environment; the sizing rules transcribed into integer EMU arithmetic) is model-checked "
+         "exhaustively: relationship ids unique, media names functional, every picture resolves, no call disturbs an earlier "
+         "picture, a call creates exactly the pictures it is asked for with the bytes and extent given (for an addition from a "
+         "file: what the file holds when the call is made), writing or removing a file changes no document, rendering "
+         "replaces placeholders in place. TLC-generated operation "
          "sequences over every public image call (AddImageFromData/FromFile/WithoutElement, the three AddCellImage forms, "
          "image placeholders through TemplateEngine/TemplateRenderer/string templates, the six ImageInfo setters), three "
-         "formats, file-name classes, size configurations, other relationship-creating calls, Save, reopen from memory and "
-         "file, and synthesised foreign packages with unusual media names are executed on the real library; the written "
+         "formats, file-name classes, size configurations, encoded lengths from under 1 KiB up a ladder 2^16+1 ... 2^25+1 bytes, "
+         "files of the caller that are written, added from (body and cell calls, the path spelt in equivalent ways), "
+         "rewritten with other bytes of equal length or another format, removed and added from again, other "
+         "relationship-creating calls, Save, reopen from memory and file, and synthesised foreign packages with unusual media "
+         "names or a media part above 16 MiB are executed on the real library; the written "
          "package is read by the independent OPC reader after every step (and, in a second run, only where the behaviour "
          "itself saves) and Pics_Trace.tla resolves picture -> relationship -> part -> bytes and judges bytes, placement "
          "and extent of every picture, old and new.",
@@ -19,7 +24,9 @@ MANIFEST = dict(
 )
 
 LEVEL = "model_checking"
-RULE = ("behaviours = every sequence of the operation alphabets below up to the tier's BFS depth enumerated by TLC, plus seeded "
+RULE = ("behaviours = every sequence of the operation alphabets below up to the tier's BFS depth enumerated by TLC (a plan may "
+        "fix a start state; the quick tier takes the images above 16 MiB in every run and rotates the lower rungs of the "
+        "length ladder and the ways in and out with the seed), plus seeded "
         "random longer ones over the wide argument classes; each is executed twice on the real library (package written and "
         "projected after every step; package written only at Save/Reopen/Render/OpenForeign and after the last step); "
         "Pics_Trace.tla resolves every picture of the written main part through its relationship to the media part and its "
@@ -38,11 +45,18 @@ ASSUMPTIONS = [
     "flattens nested blocks inside a cell",
     "foreign packages are synthesised with inline pictures in the markup form the library itself writes, so that what "
     "Open+Save preserves of a picture (C03/C04) is not in question here",
+    "an image file of the caller is a path slot of the specification; the executor gives each slot one fixed file name "
+    "(chart.png, an extension-less non-ASCII name), spells the path clean / with a '.' segment / with 'x/..' in turn and "
+    "replaces the content in place or by renaming a new file over it; an addition from a path that holds no file is "
+    "expected to fail and change nothing",
+    "images of a stated encoded length are valid files of their format brought to exactly that length with data every "
+    "decoder skips (a private ancillary PNG chunk before IEND, JPEG comment segments after SOI, a GIF comment extension "
+    "before the trailer); 'exactly the bytes given' includes that data",
     "AddCellImage with a nil table, an out-of-range cell or a Format the bytes are not in is expected to fail and change "
     "nothing; return-value deviations are recorded as M10 notes, not as verdicts",
 ]
 
-BFS_PLANS = ["all", "adds", "sizes", "sizes2", "names", "names2", "foreign", "foreign2", "templates", "templates2", "tstrings", "tcells", "twins", "setters", "setters3"]
+BFS_PLANS = ["all", "adds", "sizes", "sizes2", "names", "names2", "foreign", "foreign2", "templates", "templates2", "tstrings", "tcells", "twins", "setters", "setters3", "files", "bulk"]
 LAZY_OFF = 500000000   # case ids of the second execution variant
 
 
@@ -94,7 +108,9 @@ def pipeline(ctx, cases_by=None):
     if cases_by is None:
         cnt = collections.Counter()
         # (1) every behaviour of each focused alphabet up to its depth (Pics_MC.tla: PlanOf), one TLC run
-        allc = ctx.tlc_gen("Pics_MC.tla", gencfg(ctx, "gen_bfs.cfg", BFS_PLANS, "bfs"), "bfs")
+        # (the quick tier's share of the large images rotates with the seed: PlanOf("bulk<k>"))
+        plans = BFS_PLANS + (["bulk%d" % (ctx.seed % 3)] if q else [])
+        allc = ctx.tlc_gen("Pics_MC.tla", gencfg(ctx, "gen_bfs.cfg", plans, "bfs"), "bfs")
         nb = len(allc)
         ctx.exhaustive = True
         # (2) seeded random walks over the wide argument classes
@@ -104,7 +120,7 @@ def pipeline(ctx, cases_by=None):
         allc += sim
         count_ops(cnt, allc)
         judge(ctx, allc, "gen")
-        ctx.extra_cov["bounds"] = {"bfs_plans": BFS_PLANS, "bfs_behaviours": nb, "random_walks": len(sim), "walk_length": d3,
+        ctx.extra_cov["bounds"] = {"bfs_plans": plans, "bfs_behaviours": nb, "random_walks": len(sim), "walk_length": d3,
                                    "variants_per_behaviour": 2,
                                    "exhaustive_over": "operation sequences of the alphabets/argument classes of PlanOf (Pics_MC.tla) "
                                                       "up to their depth for this tier"}
